@@ -170,7 +170,7 @@ theorem constraint_positive_counts (env : Env) (c loaded : CVal) (h : fromDict e
     *configuration* error (not a validation error, not acceptance). -/
 theorem constraint_nonpositive_is_configuration_error (env : Env) (c : CVal) (kvs : List (CVal × CVal))
     (loaded : CVal) (hz n k : Int)
-    (ht : transformConfig (realEnv fe).kskTtlFallback c = .ok kvs)
+    (ht : transformConfig env.kskTtlFallback c = .ok kvs)
     (hv : validate env validateFuel false (.model "KSKMConfig") (.map kvs) = .ok (some loaded))
     (h1 : intAt loaded "request_policy" "signature_horizon_days" = some hz)
     (h2 : intAt loaded "request_policy" "num_bundles" = some n)
